@@ -68,6 +68,34 @@ def run(ctx, R):
     args = mir["blocks"][swap[0]]["t"]["args"]
     clears = len(args) >= 2 and args[1].get("c", "").endswith("false")
     R.ob("C31:poll:clears-flag-atomically", clears, "the poll must be INTERRUPT.swap(false, ..): read and clear in one step (argument %s)" % (args[1] if len(args) > 1 else None), F.where(cf))
+    # catch/3 and setup_call_cleanup/3 pop their choice point and restore the enclosing block in separate instructions;
+    # a poll landing between them sees a block register that names a popped frame, and throw_exception would make that
+    # frame the current choice point. The poll must test block (effective_block()) against b before it consumes the flag.
+    cfh = F.hir(cf)["body"]
+
+    def mentions(n, what):
+        for y in walk(n):
+            if what == "block" and ((y["k"] == "MethodCall" and y["name"] == "effective_block") or (y["k"] == "Field" and y["name"] in ("block", "scc_block"))):
+                return True
+            if what == "b" and y["k"] == "Field" and y["name"] == "b":
+                return True
+            if what == "swap" and y["k"] == "MethodCall" and y["name"] == "swap":
+                return True
+        return False
+    guarded = False
+    for n in walk(cfh):
+        if n["k"] != "If":
+            continue
+        c = n["cond"]
+        if mentions(c, "block") and mentions(c, "b"):
+            # early return before the swap, or the same condition short-circuiting the swap
+            if not mentions(c, "swap") and any(y["k"] == "Ret" for y in walk(n["then"])) and not mentions(n["then"], "swap"):
+                guarded = True
+            if mentions(c, "swap") and c["k"] == "Binary" and c.get("op") == "And" and not mentions(c["a"], "swap"):
+                guarded = True
+    R.ob("C31:poll:not-taken-while-block-register-is-stale", guarded,
+         "check_for_interrupt consumes the flag and throws without comparing the block register with b: an interrupt polled between the pop of a catch/3 choice point "
+         "and '$reset_block' backtracks into a frame that is gone (repeat, catch(throw(x), x, true), fail under repeated SIGINT: `code pointer p = ... is oob`)", F.where(cf))
     is_bt = lambda r: re.search(r"MachineState>?::backtrack$", r) is not None
     if bt:
         # shape A: the poll itself backtracks into the handler search
@@ -89,6 +117,13 @@ def run(ctx, R):
             continue
         sites += len(calls)
         if bt:
+            # shape A: the poll has already backtracked when it returns, so the caller must be a loop that dispatches on
+            # p next; an instruction's builtin would return into an arm that steps (p += 1) past the handler selected
+            in_loop = re.search(r"Machine::(dispatch_loop|verify_attr_dispatch_loop)$", short(p)) is not None
+            R.ob("C31:poll-site:%s:poll-that-backtracks-is-called-from-a-dispatch-loop" % short(p), in_loop,
+                 "%s calls check_for_interrupt(), which throws and backtracks; when it returns true the instruction arm that called this builtin still steps "
+                 "(p += 1 / p = cp), skipping the first instruction of the handler: catch/3 around the blocked builtin does not fire. Builtins that wait poll with "
+                 "interrupt_as_error()? and let the arm throw" % short(p), F.where(p))
             continue
         guarded = set()
         for n in walk(h["body"]):
@@ -100,7 +135,7 @@ def run(ctx, R):
             R.ob("C31:poll-site:%s@%d:interrupt-taken-then-backtracks" % (short(p), i), id(c) in guarded,
                  "check_for_interrupt() only raises the interrupt; this site (line %s) continues without testing the result and backtracking, so the next "
                  "instruction runs with the ball set, `fail` true and `p` still inside the interrupted goal" % c["ln"], F.where(p))
-    R.floor("poll sites", sites, 4)
+    R.floor("poll sites", sites, 2)
     # ---- RF4: accessors of the static ------------------------------------------------------------------
     users = {}
     for p, it in F.items.items():
@@ -115,6 +150,13 @@ def run(ctx, R):
         if p == cf:
             ok = ops == {"swap"}
             why = "the poll"
+        elif short(p).endswith("MachineState::interrupt_as_error"):
+            ok = ops == {"swap"}
+            why = "the poll of builtins that wait"
+            h = F.hir(p)
+            errs = [x for x in walk(h["body"]) if x["k"] == "Call" and re.search(r"(Result::|v1::)Err$", x.get("callee") or "")]
+            R.ob("C31:builtin-poll:returns-the-interrupt-as-error", len(errs) >= 1 and any((r or "").endswith("::interrupt_error") for _, r, _ in hir_calls(h["body"])),
+                 "interrupt_as_error must return Err(interrupt error) when the flag was set", F.where(p))
         elif F.items[p]["file"] == "src/lib.rs":
             ok = ops == {"store"}
             why = "the SIGINT handler"
